@@ -1,3 +1,3 @@
 #!/bin/bash
 D=/tmp/w/deps/crate/target/debug/deps
-verus src/lib.rs --crate-type lib --crate-name xml_schema_generator --edition 2021 -L dependency=$D --extern quick_xml=$(ls $D/libquick_xml-*.rlib) --extern log=$(ls $D/liblog-*.rlib) --extern convert_string=$(ls $D/libconvert_string-*.rlib) --triggers-mode silent "$@" 2>&1 | grep -v "^\[rust_verify" | grep -v -E "autoderive|^ *= help: to suppress"
+cd "${1:?usage: run_overlay_probe.sh DIR [verus args]}" && shift && verus src/lib.rs --crate-type lib --crate-name xml_schema_generator --edition 2021 -L dependency=$D --extern quick_xml=$(ls $D/libquick_xml-*.rlib) --extern log=$(ls $D/liblog-*.rlib) --extern convert_string=$(ls $D/libconvert_string-*.rlib) --triggers-mode silent "$@" 2>&1 | grep -v "^\[rust_verify" | grep -v -E "autoderive|^ *= help: to suppress"
